@@ -105,6 +105,28 @@ def apply (cfg : Cfg) (s : Table) (cmd : Cmd) : Table := (applyRes cfg s cmd).1
 /-- replica state after a prefix of the common command log (C01: every replica is such a state). -/
 def stateAfter (cfg : Cfg) (log : List Cmd) : Table := log.foldl (apply cfg) Table.empty
 
+/-! ## Snapshots (`SyncObjConsumer._serialize` / `_deserialize`)
+
+`_serialize()` returns the instance attributes created after `SyncObjConsumer.__init__` ran -- for
+`_ReplLockManagerImpl` these are `__locks` and `__autoUnlockTime` --, SyncObj pickles them into the dump;
+`_deserialize(data)` assigns every attribute of `data` to the receiving instance (whatever it held). -/
+
+/-- what `_serialize()` hands to the dump: the lock table and the auto-unlock time. -/
+structure Snapshot where
+  locks : Table
+  U : Nat
+
+def serialize (cfg : Cfg) (s : Table) : Snapshot := { locks := s, U := cfg.U }
+
+/-- `_deserialize(snap)` on an instance that currently has configuration `cfg'` and table `s'`. -/
+def deserialize (snap : Snapshot) (cfg' : Cfg) (_s' : Table) : Cfg × Table :=
+  ({ cfg' with U := snap.U }, snap.locks)
+
+/-- a replica rebuilt from another replica's snapshot (restart from a dump file, follower caught up by the
+leader's snapshot): the receiving instance was created with `cfg'` and holds `s'`. -/
+def rebuild (cfg : Cfg) (s : Table) (cfg' : Cfg) (s' : Table) : Cfg × Table :=
+  deserialize (serialize cfg s) cfg' s'
+
 /-! ## The client wrapper `ReplLockManager` -/
 
 /-- `__selfID`, `__lastProlongateTime`. -/
